@@ -590,6 +590,51 @@ func c10Binary(env *runEnv, r *rand.Rand) {
 		g.stop()
 		fa.stop()
 	}
+	if env.thorough() {
+		// timers: an idle timeout is configured, a client opens only the outbound half of a legacy tunnel
+		// and then does nothing for longer than a minute; another opens both halves and goes quiet
+		idp := newFakeIdP()
+		defer idp.close()
+		dir := filepath.Join(env.workdir, "c10-idle")
+		mkdirAll(dir)
+		one := 1
+		gc := gwConfig{authSet: true, auth: []string{"openid"}, tlsDisable: true, hosts: []string{"127.0.0.1:3389"}, hostSelection: "any",
+			providerURL: idp.srv.URL, clientID: idp.clientID, idle: &one}
+		yaml, ev := gc.render("file")
+		g, ok := startGateway(dir, yaml, ev, false)
+		if !ok {
+			panic("C10: gateway did not start: " + g.logs())
+		}
+		out, _, _, err := legacyOpenOut(g, "{c10-half-open}", nil)
+		var quiet tclient
+		if q, e2 := openTunnel(g, tunnelScript{transport: "legacy", id: "{c10-quiet}"}); e2 == nil {
+			q.send(packet(ptHandshake, handshakeBody(1, 0, 0, 2)))
+			q.recv(2 * time.Second)
+			quiet = q
+		}
+		time.Sleep(66 * time.Second)
+		obs := "alive"
+		if !g.alive() {
+			obs = "process-exited"
+		} else if t, e3 := openTunnel(g, tunnelScript{transport: "ws", id: "{c10-after-idle}"}); e3 != nil {
+			obs = "no-upgrade"
+		} else {
+			obs = handshakeAnswered(t)
+			t.close()
+		}
+		if lg := g.logs(); strings.Contains(lg, "fatal error:") || strings.Contains(lg, "panic:") || strings.Contains(lg, "panic serving") {
+			obs = "PANIC"
+		}
+		if err == nil {
+			out.Close()
+		}
+		if quiet != nil {
+			quiet.close()
+		}
+		env.count("c10.l3.idle." + obs)
+		env.emit("alive", "binary:half-open-and-quiet-tunnels-for-66s-with-idle-timeout", obs)
+		g.stop()
+	}
 }
 
 // c10Fragments: packets delivered in two reads whose sizes sweep the defragmenter's scratch
